@@ -68,8 +68,7 @@ func knownFinding(kind string, r Req) string {
 	switch kind {
 	case "anon":
 		switch {
-		case p == "/failpoint" && r.Method == "POST":
-			return "anon-failpoint"
+		// (anon-failpoint: fixed in /repo 7651ed3, judged like every other route; replay = regression case)
 		case p == "/debug/query":
 			return "anon-debug-query"
 		case p == "/debug/vars":
@@ -81,8 +80,7 @@ func knownFinding(kind string, r Req) string {
 		}
 	case "authz":
 		switch {
-		case p == "/api/v1/tsdb/{tsdb}" && r.Method == "POST":
-			return "authz-create-tsdb"
+		// (authz-create-tsdb: fixed in /repo aa09e73, judged like every other route; replay = regression case)
 		case knownLogRoutes[r.Method+" "+p]:
 			return "authz-logstore"
 		}
@@ -399,7 +397,7 @@ func TestRouteCred(t *testing.T) {
 		var rt RouteInfo
 		var r Req
 		switch b := rapid.IntRange(0, 9).Draw(t, "bucket"); {
-		case b <= 3 && !e.Logkeep:
+		case b <= 3 && (!e.Logkeep || b <= 1):
 			rt = RouteInfo{Method: rapid.SampledFrom([]string{"GET", "POST"}).Draw(t, "qmethod"), Pattern: "/query", Source: "router"}
 			vs := e.variants(rt)
 			groups := map[string][]Req{}
